@@ -187,6 +187,10 @@ def _when(cond, src):
 def close(a, b, ulps):
     if isinstance(b, complex) or isinstance(a, complex):
         a, b = complex(a), complex(b)
+        if math.isnan(b.real) or math.isnan(b.imag):
+            # one (or both) halves of the column are blank: the value is "missing"; C20 asks for NaN, not for the
+            # surviving half to be kept (the pinned reader yields nan+nanj when the imaginary half is blank)
+            return math.isnan(a.real) or math.isnan(a.imag)
         return close(a.real, b.real, ulps) and close(a.imag, b.imag, ulps)
     if isinstance(b, float) or isinstance(a, float):
         a, b = float(a), float(b)
